@@ -24,7 +24,7 @@ chk('C11',
     'DESIGN.md section 4 C11')
 chk('C12',
     'K1: one inductive step of the modification registry from an arbitrary valid pre-state (unbounded in-progress count): every exit path (return, raise at any nesting level, refused nested modification, manual enter/success/fail) restores it exactly. '
-    'K2: validate_put_arglike refuses exactly the splices that violate call-argument ordering. P1: ten kinds of invalid request on 47 carriers + arguments carriers with all bounds symbolic over Z, cuts with an impossible args_as conversion, circular puts (the tree's own root as code): '
+    'K2: validate_put_arglike refuses exactly the splices that violate call-argument ordering. P1: ten kinds of invalid request on 47 carriers + arguments carriers with all bounds symbolic over Z, cuts with an impossible args_as conversion, circular puts (the own root of the tree as code): '
     'when the call raises, source, full attribute dump, links and registry equal the pre-state; a following valid edit with symbolic index succeeds and the CPython re-parse equals the tree.',
     'Bounds: listed carriers and invalid-request table; pep8space values -3..5. Two defects fixed (f43f084, 62a23c1). Outside: faults injected at arbitrary internal points (not required by the property).',
     'symbolic execution of _Modifying and the failing edit paths with symbolic indices; pre/post state equality; CPython re-parse after the follow-up edit',
